@@ -160,7 +160,7 @@ impl Property for C18 {
         ]
     }
     fn expected_probes(&self) -> Vec<&'static str> {
-        vec!["pitch", "pitch_tp0", "noise", "envelope", "envelope_period_measured", "ladder", "gating", "panning", "bound", "readback", "rate_below_27k", "ym_chip", "order_independence", "machine_retrigger", "listener_independence", "mirrored_register_numbers", "host_mute_unmute", "envelope_long_hold", "machine_long_silence"]
+        vec!["pitch", "pitch_tp0", "noise", "envelope", "envelope_period_measured", "ladder", "gating", "panning", "bound", "readback", "rate_below_27k", "ym_chip", "order_independence", "machine_retrigger", "listener_independence", "mirrored_register_numbers", "host_mute_unmute", "envelope_long_hold", "machine_long_silence", "ultrasonic_tone_mean"]
     }
     fn time_unit_hz(&self) -> f64 {
         44_100.0
@@ -651,6 +651,27 @@ impl Property for C18 {
                     c.w(7, 0x3F & !(1 << ch));
                     c.w(8 + ch as u8, 15);
                     c.gen(2000, None);
+                    // ... and the duty cycle: a square wave the resampler cannot resolve still spends half of its
+                    // time high, so its mean is half the level of the same channel with the tone gate open
+                    ctx.probe("ultrasonic_tone_mean");
+                    let pick = |v: &Vec<(f64, f64)>| -> f64 {
+                        let s: f64 = if pan_of(mode, ch) == 2 { v.iter().map(|s| s.1).sum() } else { v.iter().map(|s| s.0).sum() };
+                        s / v.len().max(1) as f64
+                    };
+                    let mut on = vec![];
+                    c.gen(6000, Some(&mut on));
+                    c.w(7, 0x3F);
+                    c.gen(200, None);
+                    let mut off = vec![];
+                    c.gen(2000, Some(&mut off));
+                    let (m_on, m_off) = (pick(&on), pick(&off));
+                    if m_off > 1e-6 && ((m_on / m_off) < 0.40 || (m_on / m_off) > 0.60) {
+                        return Err(Fail::new(
+                            "C18.tone_duty",
+                            &format!("rate_bucket={}", rate_bucket),
+                            format!("channel {} TP={} ({:.0} Hz) at {} Hz: the mean of the tone is {:.3} of the channel level, a square wave gives 0.5", ch, tp, f, rate, m_on / m_off),
+                        ));
+                    }
                 } else {
                     ctx.probe("pitch");
                     if tp == 0 {
